@@ -207,7 +207,7 @@ def run_check(tier, seed, fixes, limit, procs=None):
     if not resA.ok and not resA.violated:
         raise tlc.MachineryError('TLC did not complete:\n%s' % resA.out[-3000:])
     # (2) the state graph of the model of the code as it is (as-written clause tolerated so that the graph is complete)
-    accept = sorted(set(listed) | {M.DEV})
+    accept = sorted(set(listed) | {M.DEV, M.DEV_CLOSE})
     tB = time.time()
     resB, graph = M.run_tlc('C18_graph', replayed, fixes, accept, dump=True)
     if resB.violated or not resB.ok or graph is None:
@@ -334,7 +334,9 @@ def run_check(tier, seed, fixes, limit, procs=None):
         'samples': samples or [{'note': 'nothing replayed'}],
         'rule': 'states/transitions: sum of the two TLC runs of this check (verdict instance: only listed deviations tolerated; graph '
                 'instance: the model of the code as written, dumped); behaviours = maximal paths of the TLC state graph of spec/Scope.tla per scenario (every order in which the environment '
-                'completes the awaited futures, placements of kill/pause/play/resume/call_soon between callbacks); all of them when a '
+                'completes the awaited futures, placements of kill/pause/play/resume/call_soon between callbacks; every process overrides the '
+                'termination hooks on_terminated (sampled on entry and after the process was closed) / on_close and registers add_cleanup '
+                'callbacks at construction and from steps, which sample too); all of them when a '
                 'scenario has at most %d, otherwise an edge cover of the graph plus uniformly drawn paths; each is replayed on generated '
                 'real Process subclasses (mode any: harness/vloop.py, one callback per RunHandle; mode idle: child interpreters on the '
                 'nest_asyncio loop) comparing the (point, process, Process.current()) sequence, the observer samples and the stacks '
@@ -376,6 +378,8 @@ ASSUMPTIONS = [
     'the environment offers kill/pause at most once per process and never a second interruption, kill while paused or resume during '
     'an interruption (those histories belong to C04-C06 and their listed findings)',
     'observer: a coroutine task and the main context sample Process.current() after every action and must see None',
+    'close() called by the user is modelled (UserClose, clause D18c/F18c) but its scenarios are switched off '
+    '(scope_model.MODEL_USER_CLOSE): on_close and the cleanup callbacks are only exercised through terminal transitions',
 ]
 
 
